@@ -43,6 +43,18 @@ def explore(ctx, verdict, mode, cfg, timeout=1500):
     rh = random_histories(ctx, cases, 3000 if ctx.quick else 40000, 6, 14)
     ctx.coverage_extra["random_histories"] = dict(count=len(rh), length="6..14")
     cases = cases + rh
+    # vacuity guard: every kind, layout and action of the configuration occurs in the replayed behaviours
+    seen_ops, seen_kl = {}, set()
+    for c in cases:
+        seen_kl.add((c["k"], c["l"]))
+        for a in c["hist"]:
+            seen_ops[a["op"]] = seen_ops.get(a["op"], 0) + 1
+    ctx.coverage_extra["actions_exercised"] = dict(sorted(seen_ops.items()))
+    ctx.coverage_extra["kinds_x_layouts"] = len(seen_kl)
+    need = {"C01": {"setcoords", "push", "clone", "reverse", "swap"}, "C02": {"push", "pushbad", "reverse", "swap", "clone"},
+            "C16": {"clone", "push", "write", "wend", "transform", "reverse", "setcoords"}}[mode]
+    if not need <= set(seen_ops):
+        raise vlib.Infra("vacuous exploration: actions never exercised: %s" % sorted(need - set(seen_ops)))
     vlib.note_cases(ctx, cases, nontrivial=lambda c: any(a["op"] in ("push", "setcoords") for a in c["hist"]))
     pipe(mode)(ctx, verdict, cases)
     ctx.coverage_extra.setdefault("model_a", []).append(dict(cfg=cfg, states=r["distinct"], transitions=r["generated"],
